@@ -228,6 +228,7 @@ func (w *vf15World) connect(rt *rapid.T, addr string, how int) {
 	// a short exchange proves that both sides derived the same keys
 	ctx := fmt.Sprintf("connection #%d to %s (%v)", id, addr, l.hello.Kind)
 	w.must(rt, l.clientWrite(vf15Fill(w.k, 0x3000+uint64(id), 1+id%50), nil))
+	w.must(rt, l.upstreamComplete(ctx))
 	l.packet(refss.FlagPayload, vf15Fill(w.k, 0x4000+uint64(id), 1+id%40), id%5, nil)
 	w.must(rt, l.flushAndCompare(ctx))
 	keep = true
